@@ -75,6 +75,8 @@ type op struct {
 
 func (o *op) toks() string {
 	switch o.kind {
+	case 'Z':
+		return fmt.Sprintf("Z %d", o.s)
 	case 'D':
 		switch o.shape {
 		case 'b', 'x', 'n', 'e':
@@ -198,6 +200,8 @@ func parseStep(s string) *op {
 	k := ts.next()
 	o.kind = k[0]
 	switch k {
+	case "Z":
+		o.s = ts.int()
 	case "Db", "Dx", "Dn", "De":
 		o.shape = k[1]
 		o.s = ts.int()
